@@ -583,7 +583,7 @@ class ClientSys:
         for e, ent in enumerate(self.bufs):
             if ent['state'] == 'stale':
                 continue
-            for compl in ('none', 'static'):
+            for compl in ('none', 'static', 'fn'):
                 o.append(['b_free', e, compl])
             if len(ent['ids']) > 1:
                 o.append(['b_free_rev', e])
